@@ -5,6 +5,8 @@ import BertE.Lemmas.Comments
 import BertE.Lemmas.C10
 import BertE.Drv.C10
 import BertE.Drv.C01
+import BertE.Lemmas.Conv
+import BertE.Drv.Conv
 /-
 C10 — re-evaluation converges, never spams, commands run once, and the outcome of an evaluation depends only
 on the state.
@@ -522,5 +524,183 @@ example :
        .user ask, .notify ⟨"HelpMessage", ""⟩ false, .user ask, .notify ⟨"HelpMessage", ""⟩ false]
     (thread log).map (·.author) = ["robot", "contrib", "robot", "contrib", "robot"] ∧
     nr "ApprovalRequired" = some (-1) ∧ nr "HelpMessage" = some 0 := by decide
+
+end BertE.C10
+
+/-! ### Convergence of the CLOSED LOOP of one pull request's evaluation (work package Conv)
+
+`Conv.evalOnce : Cfg → Host → Sys → id → orc → Host × Sys × Effects` (`Model/Conv.lean`) is ONE `handle_pull_request` job
+as a function of the state it finds: `Eval.evalPr` (stage, job status and the messages handed to `notify_user`, all
+COMPUTED from the host) + `Flow.step` of its plan + the host updates Bert-E itself makes (every notified message through
+the real `_send_comment` / `find_comment` rule with the regenerated `dont_repeat_if_in_history` table, appended to the
+thread when posted; integration pull requests created / declined; the host's MERGED rule); the queue selection of an
+already queued pull request is `Select.selectOf` on the host's own build table. `Effects` = refs whose value changed,
+pull requests created / declined, comments posted.
+
+The first sentence of C10 as ONE statement (NOT proved in this generality; FALSE as it stands, see the counterexample):
+
+    theorem C10_converges (c : Conv.Cfg) (h0 : Host) (s0 : Sys) (hs : Close.InvV s0) (id : Nat) (o1 o2 o3 : List Bool) :
+        let (h1, s1, _) := evalOnce c h0 s0 id o1; let (h2, s2, _) := evalOnce c h1 s1 id o2
+        let (h3, s3, _) := evalOnce c h2 s2 id o3
+        ∀ n o, (evalMany c id h3 s3 (List.replicate n o)).2.2 = List.replicate n Effects.none
+
+"Nothing changes outside Bert-E" excludes, between two of these evaluations: pushes to any branch, build reports,
+comments, approvals, change requests, declines, Jira edits, admin jobs - and it includes that git gives the same
+answer to the same content merge (the positional answers `o1 o2 o3 o` cannot be arbitrary: an evaluation that ended
+in a Conflict and is repeated on the unchanged repository asks the same questions in the same order).
+
+Which exits need how many ACTING evaluations before the quiet one (from the model, each confirmed on the real system
+by the closed-loop phase of the tie, harness/convsys.py, which predicts 4 consecutive real evaluations):
+  0  silent exits on a greeted pull request: NothingToDo (merged, source gone, `wait`), NotMyJob, a gate message that is
+     already the robot's latest comment (ApprovalRequired, Build*, AfterPullRequest, Jira failures, UnknownCommand, ...)
+  1  every exit with a fresh message (posted once, then de-duplicated); the first evaluation of a pull request (greeting,
+     `w/` branches created and pushed, IntegrationDataCreated, then the gate's message); Conflict; a direct merge
+     (SuccessMessage, then NothingToDo); a declined pull request (PullRequestDeclined, then NothingToDo); Queued when
+     the queue builds are not green yet
+  2  Queued, then the queue evaluation merges (queue commit = an already green commit), then NothingToDo; a command that
+     only answers (`help`, `status`) on a pull request waiting at a gate: the answer, then the gate's message AGAIN
+     (the robot's latest comment is now the answer), then quiet
+  3  a queued pull request whose source got new (green) commits: Merged + PartialMerge (integration and queue branches
+     removed), Queued again, Merged, then quiet - `C10_converges_tight`: the bound of the property is reached
+  4  the same with a pending `help` / `status` command in front: `C10_converges_counterexample` - the FOURTH evaluation
+     still moves the destination branch. The real system does exactly this (known finding
+     `no-convergence-after-command-and-partial-merge`; witness in every C10 check).
+
+Proved, composed over `evalOnce` (`C10_converges_partial`): (A) every evaluation that the composed model stops at the
+early stage - all exits before the integration branches: early_checks, option and command errors, dependencies,
+NothingToDo, SourceBranchTooOld, cascade errors, branch compatibility, the ticket gate, RequestIntegrationBranches,
+BranchHistoryMismatch - returns the repository literally unchanged, and every evaluation whose COMPUTED plan holds no
+operation (also: trial-merge Conflict, nothing selected in the queue, a DECLINED pull request without integration data)
+changes no ref; (B) a protected message (`-1` or a positive window: every gate message, `C10_protected_table`) notified
+again on the thread the first notification left is not posted and leaves the pull request as it is; (C) a state that
+an evaluation returns unchanged is returned unchanged, with the same effects, by every later evaluation.
+MISSING for the full statement (covered by the tie and by the `decide` chains only): that Bert-E's own comments do
+not change what the next evaluation computes except for the greeting (host-invariance of `evalPr`, needs "no command
+pending"), the re-computation of the gates on the re-read integration tips (integration stage, composed), the
+idempotence of `Select.selectOf` after a queue merge, conflicts with position-dependent oracle answers. The
+exit-by-exit theorems above (`C10_converges_integration_partial`, `_insync_partial`, `_cleanup`) apply to the
+repository component of `evalOnce` through `Conv.conv_evalOut_sys` (it IS `Flow.step` at the computed stage). -/
+namespace BertE.C10
+open BertE.Conv BertE.Flow BertE.Eval BertE.Git
+open BertE.Reactor (Comment)
+
+/-- **C10, convergence of the closed loop (partial: the exits listed above).** For every configuration, host, repository,
+    pull request and answers of git: (A1) an evaluation stopped at the early stage returns the repository unchanged and
+    moves no ref; (A2) an evaluation whose computed plan holds no operation moves no ref; (B) a protected message is
+    posted at most once by consecutive notifications; (C) an unchanged state stays unchanged for ever. No hypothesis on
+    the state. -/
+theorem C10_converges_partial (c : Conv.Cfg) (h : Host) (s : Sys) (id : Nat) (orc : List Bool) :
+    ((evalPr c.eval h s id orc (selOf h s)).stage = .early → (evalPr c.eval h s id orc (selOf h s)).declined = false →
+      (evalOnce c h s id orc).2.1 = s ∧ (evalOnce c h s id orc).2.2.refs = []) ∧
+    ((evalPr c.eval h s id orc (selOf h s)).plan.ops = [] →
+      (evalOnce c h s id orc).2.1.remote = s.remote ∧ (evalOnce c h s id orc).2.2.refs = []) ∧
+    (∀ cls p, Conv.Protected c cls → postPr c cls (postPr c cls p) = postPr c cls p) ∧
+    (∀ e, evalOnce c h s id orc = (h, s, e) → ∀ n, evalMany c id h s (List.replicate n orc) = (h, s, List.replicate n e)) := by
+  refine ⟨fun hst hd => ?_, fun hops => ?_, fun cls p hp => conv_postPr_idem c cls p hp,
+    fun e he => conv_fixpoint c h s id orc e he⟩
+  · have h1 := conv_early_sys c h s id orc hst hd
+    refine ⟨h1, ?_⟩
+    show (evalOut c h s id orc).eff.refs = []
+    rw [conv_evalOut_refs, h1]
+    exact conv_changedRefs_self _
+  · have h1 := conv_noop_get c h s id orc hops
+    refine ⟨h1, ?_⟩
+    show (evalOut c h s id orc).eff.refs = []
+    rw [conv_evalOut_refs, h1]
+    exact conv_changedRefs_self _
+
+/-- `Protected`, decidably -/
+def protectedB (nr : Comments.Norepeat) (cls : String) : Bool :=
+  match nr cls with
+  | some n => decide (1 ≤ n ∨ n = -1)
+  | none => false
+
+/-- every message class the gates raise is protected in the regenerated table: `C10_protected_table` in the form
+    `C10_converges_partial` (B) uses -/
+theorem C10_gate_messages_protected (c : Conv.Cfg) (hnr : c.nr = BertE.Drv.Conv.nrGen) :
+    ∀ m ∈ Gen.Messages.messages, m.kind = "template" →
+      m.name ∉ commandAnswers Gen.Commands.raises → m.name ∉ Gen.Commands.information → m.name ∉ occurrenceMessages →
+      Conv.Protected c m.name := by
+  have hdec : ∀ m ∈ Gen.Messages.messages, m.kind = "template" →
+      m.name ∉ commandAnswers Gen.Commands.raises → m.name ∉ Gen.Commands.information → m.name ∉ occurrenceMessages →
+      protectedB BertE.Drv.Conv.nrGen m.name = true := by decide
+  intro m hm h1 h2 h3 h4
+  have hb := hdec m hm h1 h2 h3 h4
+  unfold protectedB at hb
+  unfold Conv.Protected
+  rw [hnr]
+  cases hn : BertE.Drv.Conv.nrGen m.name with
+  | none => rw [hn] at hb; cases hb
+  | some n =>
+    rw [hn] at hb
+    exact ⟨n, rfl, by simpa using hb⟩
+
+/-! #### the chains, on a concrete system -/
+
+def convEval : BertE.Eval.Cfg :=
+  { reg := BertE.Drv.C07.genRegistry.withCmdLine ["bypass_jira_check"]
+    env := ⟨["admin"], "", "robot", []⟩
+    authorOptions := []
+    early := BertE.Drv.C12.genTbl
+    build := BertE.Drv.C06.genTbl
+    buildKey := "pre-merge"
+    approvals := { requiredPeers := 0, requiredLeaders := 0, needAuthor := false, projectLeaders := ["admin"], robot := "robot", bypassAuthorS := false, bypassAuthorA := false, bypassPeerS := false, bypassPeerA := false, bypassLeaderS := false, bypassLeaderA := false, approve := false, unanimity := false }
+    jira := ⟨false, false, [], [], "", "", [], false⟩
+    ticketless := BertE.Drv.Eval.ticketlessOf
+    maxCommitDiff := 0
+    createBranches := true
+    createPrs := false }
+
+/-- the regenerated tables: `dont_repeat_if_in_history` per class, the answers of the commands -/
+def convCfg : Conv.Cfg := ⟨convEval, BertE.Drv.Conv.nrGen, fun cls => cls.toList, true, Gen.Commands.raises⟩
+
+def convPr (status : String) (cs : List Comment) : Eval.Pr :=
+  { id := 1, author := "contrib", src := "feature/TEST-1", dst := "development/4.3", status := status,
+    comments := cs, approvals := [], changeRequests := [], participants := [] }
+
+/-- one destination branch, queues on; the pull request was queued on the green source tip 2 (an evaluation of the
+    model itself); then somebody pushed commit 3 to the source branch and it was built green. Nothing else happens. -/
+def convSys : Sys :=
+  let s0 := (step (BertE.Drv.C01.initSys true false [.dev 4 (some 3)]) (.extSet "feature/TEST-1" [1] false)).1
+  let s1 := (evalOut convCfg ⟨[convPr "OPEN" []], [(2, .successful)], []⟩ s0 1 []).sys
+  (step s1 (.extSet "feature/TEST-1" [] true)).1
+
+def convHost (extra : List Comment) : Host :=
+  ⟨[convPr "OPEN" ([⟨"robot", "InitMessage".toList⟩, ⟨"robot", "Queued".toList⟩] ++ extra)],
+   [(2, .successful), (3, .successful)], []⟩
+
+set_option maxRecDepth 100000 in
+/-- **the bound is tight.** Three consecutive evaluations act - the queue merge lands the queued part and posts
+    PartialMerge, the pull request is queued again, the queue merges it - and the fourth and fifth do nothing: the
+    maximum the property allows is reached (on the real system too: harness/convsys.py `partial-merge-chain`). -/
+theorem C10_converges_tight :
+    let r := evalMany convCfg 1 (convHost []) convSys [[], [], [], [], []]
+    r.2.2.map (·.posted) = [[(1, "PartialMerge")], [(1, "Queued")], [(1, "SuccessMessage")], [], []] ∧
+    r.2.2.map Effects.isNone = [false, false, false, true, true] := by decide +kernel
+
+set_option maxRecDepth 100000 in
+/-- **the full statement is false** (and the real system does the same: known finding
+    `no-convergence-after-command-and-partial-merge`). The same state with a pending `@robot help`: the FOURTH
+    consecutive evaluation still acts (it moves `development/4.3` and posts SuccessMessage); only the fifth is quiet. -/
+theorem C10_converges_counterexample :
+    let r := evalMany convCfg 1 (convHost [⟨"contrib", "@robot help".toList⟩]) convSys [[], [], [], [], [], []]
+    r.2.2.map (·.posted) =
+      [[(1, "HelpMessage")], [(1, "PartialMerge")], [(1, "Queued")], [(1, "SuccessMessage")], [], []] ∧
+    (r.2.2.map (·.refs))[3]? = some [Ref.qw 1 (.dev 4 (some 3)) "feature/TEST-1", Ref.dest (.dev 4 (some 3))] ∧
+    r.2.2.map Effects.isNone = [false, false, false, false, true, true] := by decide +kernel
+
+set_option maxRecDepth 100000 in
+/-- Non-vacuity of `C10_converges_partial` (A): a pull request the host reports as MERGED is stopped at the early stage
+    (silently: NothingToDo); (B): `Queued` is a protected class of the regenerated table; and the two-evaluation exit:
+    two destination branches, a first evaluation creates and pushes `w/5.1/...`, greets, posts IntegrationDataCreated
+    (the build gate's BuildNotStarted is a silent status), the second and third do nothing. -/
+example :
+    (evalPr convCfg.eval ⟨[convPr "MERGED" []], [], []⟩ convSys 1 [] []).stage = .early ∧
+    (evalPr convCfg.eval ⟨[convPr "MERGED" []], [], []⟩ convSys 1 [] []).declined = false ∧
+    convCfg.nr "Queued" = some (-1) ∧
+    (let s := (step (BertE.Drv.C01.initSys true false [.dev 4 (some 3), .dev 5 (some 1)]) (.extSet "feature/TEST-1" [1] false)).1
+     let r := evalMany convCfg 1 ⟨[convPr "OPEN" []], [(3, .successful)], []⟩ s [[], [], []]
+     r.2.2.map (·.posted) = [[(1, "InitMessage"), (1, "IntegrationDataCreated")], [], []] ∧
+     r.2.2.map Effects.isNone = [false, true, true]) := by decide +kernel
 
 end BertE.C10
